@@ -673,6 +673,30 @@ def c03(rep, tier):
                     G.violation(inst, 'jump operand %s is not a label (provenance %s)' % (show(e['args'][0]), sorted(map(str, pv))), W(m, f, e))
                 else:
                     G.ok(inst, 'label operand, registered for backpatching', W(m, f, e))
+    # the operand field of a jump holds any distance between two instructions: not narrower than the type of an instruction index
+    WIDTH = {'long': 8, 'long long': 8, 'unsigned long': 8, 'unsigned long long': 8, 'int': 4, 'unsigned int': 4, 'short': 2, 'unsigned short': 2,
+             'char': 1, 'signed char': 1, 'unsigned char': 1, 'bool': 1}
+    seen_off = set()
+    for f in m.facts.functions:
+        if f.get('body') is None or f['tmpl'] == 'pattern':
+            continue
+        for x in walk_all_exprs(f['body']):
+            if x.get('k') == 'assign' and x.get('op', '=') == '=':
+                l = strip_casts(x['l'])
+                if l is not None and l.get('k') == 'member' and l.get('name') == 'offset' and any(p in ('jmp', 'jmpc') for p in field_chain(l)[1]):
+                    lt = (l.get('cty') or '').replace('const ', '')
+                    rt = (strip_casts(x['r']).get('cty') or '').replace('const ', '') if strip_casts(x['r']) is not None else ''
+                    key = (f['q'], show(l))
+                    if key in seen_off or lt not in WIDTH:
+                        continue
+                    seen_off.add(key)
+                    inst = '%s: %s' % (f['q'].split('::')[-1], show(x)[:50])
+                    if WIDTH[lt] < WIDTH['int']:
+                        G.violation(inst, 'the jump operand field has type %s (%d bytes) but instruction indices and their differences are int: a jump over more than %d '
+                                    'instructions wraps around and lands outside its routine' % (lt, WIDTH[lt], 2 ** (8 * WIDTH[lt] - 1) - 1), W(m, f, x) if f in m.all_fns() else os.path.relpath(f['file'], m.facts.repo) + ':%d' % x['loc'][0],
+                                    witness={'input': 'a routine longer than %d instructions (e.g. 100 calls of a 200-parameter program)' % (2 ** (8 * WIDTH[lt] - 1) - 1)})
+                    else:
+                        G.ok(inst, 'operand field of type %s holds every instruction distance' % lt, W(m, f, x) if f in m.all_fns() else os.path.relpath(f['file'], m.facts.repo) + ':%d' % x['loc'][0])
     # labels created into locals are set exactly once
     for f in m.all_fns():
         gg = None
@@ -752,6 +776,13 @@ def c03(rep, tier):
     # "not set yet" is one sentinel value: what createLabel() stores is what the unset-mark test and the backpatcher compare with
     cl = m.fn('GenState::createLabel')
     stored = [lit(e['args'][0]) for e in walk_all_exprs(cl['body']) if is_call(e, '::push_back') and field_chain(e['obj'])[1][-1:] == ['labels']]
+    for e in walk_all_exprs(cl['body']):
+        if e.get('obj') is not None and field_chain(e['obj'])[1][-1:] == ['labels']:
+            if is_call(e, '::emplace_back'):
+                # emplace_back() value-initialises the new int: 0; emplace_back(v) stores v
+                stored.append(0 if not e.get('args') else lit(e['args'][0]))
+            elif is_call(e, '::resize') and e.get('args'):
+                stored.append(0 if len(e['args']) == 1 else lit(e['args'][1]))
     tested = []
     for f2 in m.all_fns():
         for e in walk_all_exprs(f2['body']):
@@ -1103,8 +1134,16 @@ def c08(rep, tier):
         if li is None or pbk is None:
             txt_all = ' '.join(show(x) for x in walk_all_exprs(bp['body']))
             gone = [t for t, v in (('line_info', li), ('potential_breaks', pbk)) if v is None and t not in txt_all]
+            only_create = [e for e in walk_all_exprs(bp['body']) if e.get('k') == 'call' and e.get('obj') is not None and
+                           m.callee(e).split('::')[-1] in ('insert', 'emplace', 'try_emplace') and table_of(strip_casts(e['obj']))[0] == 'potential_breaks']
+            appends = [e for e in walk_all_exprs(bp['body']) if e.get('k') == 'call' and m.callee(e).split('::')[-1] in ('push_back', 'emplace_back', 'insert_or_assign')
+                       and e not in only_create]
             if gone:
                 A.violation('breakpoint(): both tables', '%s is not updated at all when a site is created' % ' and '.join(gone), W(m, bp))
+            elif pbk is None and only_create and not appends:
+                A.violation('breakpoint(): site list entry', 'the site is entered with %s(), which does nothing when the location already has an entry: the second and every later '
+                            'site of a source line is missing from potential_breaks (it cannot be armed) while line_info still reports it' % m.callee(only_create[0]).split('::')[-1],
+                            W(m, bp, only_create[0]), witness={'input': 'two statements on one line: x0 := 1; x1 := 2'})
             else:
                 A.unknown('breakpoint(): both tables', 'update of %s not recognised' % ' / '.join(t for t, v in (('line_info', li), ('potential_breaks', pbk)) if v is None))
         else:
@@ -1206,6 +1245,37 @@ def c08(rep, tier):
                           any(y.get('k') == 'ref' and y.get('d') == oe['d'] for y in walk_expr((x.get('args') or [x.get('r')])[0] or {}))]
                     if not wb:
                         why.append('the site is removed from %s, a by-value copy of the location\'s list that is never written back: the table keeps the popped site' % oe['name'])
+        # the instruction is popped exactly when its table entries are removed (same conditions)
+        if len(li_er) == 1:
+            gp_ = set((cn.id, str(label)) for cond, label, cn in gg.guards_of(popev))
+            ge_ = set((cn.id, str(label)) for cond, label, cn in gg.guards_of(li_er[0]))
+            if gp_ != ge_:
+                extra = [show(cond)[:50] for cond, label, cn in gg.guards_of(popev) if (cn.id, str(label)) not in ge_]
+                missing = [show(cond)[:50] for cond, label, cn in gg.guards_of(li_er[0]) if (cn.id, str(label)) not in gp_]
+                why.append('the instruction is popped under other conditions than its table entries are removed (%s): %s' % (
+                    ('pop additionally requires %s' % extra) if extra else ('table removal additionally requires %s' % missing),
+                    'a POTENTIAL_BREAK stays in the code that neither table lists' if extra else 'entries of a popped instruction stay in the tables'))
+        # the index that is taken out of the tables is the index of the popped instruction: size()-1 read before the pop, or size()
+        # read after it
+        for er in li_er:
+            karg = strip_conv(er.e['args'][0]) if er.e.get('args') else None
+            if is_call(karg, '::find') and karg.get('args'):
+                karg = strip_conv(karg['args'][0])
+            kexp = m.origin(f, karg) if karg is not None else None
+            kexp = strip_casts(kexp) if kexp is not None else None
+            minus1 = False
+            if kexp is not None and kexp.get('k') == 'bin' and kexp['op'] == '-' and strip_casts(kexp['r']).get('k') == 'int' and strip_casts(kexp['r'])['v'] == 1:
+                minus1, kexp = True, strip_casts(kexp['l'])
+            szcall = kexp is not None and (is_call(kexp, 'GenState::getNextPos') or (is_call(kexp, '::size') and field_chain(kexp.get('obj'))[1][-1:] == ['code']))
+            if szcall and kexp.get('sid') in gg.by_sid:
+                kev = gg.ev(kexp)
+                after_pop = gg.dominates(popev, kev)
+                before_pop = not gg.can_follow(popev, kev) or (popev.node is kev.node and kev.idx < popev.idx)
+                if minus1 and after_pop:
+                    why.append('the index %s is computed after the instruction was popped: it names the instruction before the popped one, whose entries are removed '
+                               'instead - the popped site stays in line_info and potential_breaks and is reused by the next instruction' % show(karg))
+                elif not minus1 and before_pop:
+                    why.append('the index %s is the position after the last instruction (no - 1): the entries of the popped site are never removed' % show(karg))
         if pb_elem and not pb_map_er:
             why.append('the site is removed from its location\'s list, but a location whose list became empty is never erased: it stays available '
                        '(setBreakPoint accepts it) although no instruction can report it')
@@ -1252,6 +1322,34 @@ def c08(rep, tier):
                 if is_call(l, '::operator[]') and tn in ('line_info', 'potential_breaks'):
                     Cw.check(f['q'] in allowed, '%s: %s[...] = ...' % (f['q'], tn), 'site bookkeeping function',
                              'table %s modified outside the site bookkeeping' % tn, W(m, f, e))
+    # the consumers of the tables (the VM and the disassembler) never add to them: a subscript of line_info creates an entry for an
+    # instruction that is no site unless the instruction is known to be one
+    vfacts = Facts(['VM/src/vm.cpp', 'VM/src/program.cpp'])
+    rep.note_facts(vfacts)
+    from .props_c02 import Multi as _Multi
+    VMm = _Multi(vfacts)
+    for f in vfacts.functions:
+        if f.get('body') is None or f['tmpl'] == 'pattern' or not f['file'].endswith(('vm.cpp', 'program.cpp')):
+            continue
+        gg = None
+        for e in walk_all_exprs(f['body']):
+            if not (e.get('k') == 'call' and e.get('obj') is not None):
+                continue
+            short = (e.get('callee') or '').split('::')[-1]
+            tn = field_chain(strip_casts(e['obj']))[1][-1:]
+            if tn == ['line_info'] and (short == 'operator[]' or short in MUT):
+                gg = gg or VMm.cfg(f)
+                site_known = False
+                for cond, label, cn in gg.guards_of(gg.ev(e)):
+                    if isinstance(label, tuple) and label[0] == 'case' and set(label[1]) <= {'POTENTIAL_BREAK', 'BREAK'} and label[1]:
+                        site_known = True
+                    if isinstance(label, bool) and label and any(k in show(cond) for k in ('POTENTIAL_BREAK', 'BREAK')) and strip_casts(cond).get('k') == 'bin' and \
+                            strip_casts(cond)['op'] in ('==', '||'):
+                        site_known = True
+                Cw.check(site_known and short == 'operator[]', '%s: line_info.%s' % (f['q'].split('::')[-1], short), 'subscript only where the instruction is a breakpoint site (its entry exists)',
+                         'line_info is %s for an instruction that need not be a breakpoint site: %s - from then on the tables are no inverses of each other' % (
+                             'subscripted' if short == 'operator[]' else 'modified', 'operator[] inserts an empty location for it' if short == 'operator[]' else short),
+                         '%s:%d' % (os.path.relpath(f['file'], vfacts.repo), e['loc'][0]), witness={'call': 'Program::disassemble() on any program'} if not site_known else None)
     # ---- d hidden file
     Dd = rep.rule('C08.d', 'lines of the hidden standard-macro file never get a site: advanceLine returns early for exactly '
                            'the file name parse() uses', floor=3)
@@ -1261,6 +1359,30 @@ def c08(rep, tier):
     E = rep.rule('C08.e', 'the current location is only ever set from (line, file) of one syntax-tree node; node positions '
                           'are copied pairwise from one token or node', floor=10)
     al = m.fn('GenState::advanceLine')
+    # a line number keeps its value on the way from the node to the tables: no field on that way is narrower than the node's
+    WIDTH = {'long': 8, 'long long': 8, 'unsigned long': 8, 'unsigned long long': 8, 'int': 4, 'unsigned int': 4, 'short': 2, 'unsigned short': 2,
+             'char': 1, 'signed char': 1, 'unsigned char': 1, 'bool': 1}
+    for f in m.all_fns():
+        for x in walk_all_exprs(f['body']):
+            pairs = []
+            if x.get('k') == 'assign' and x.get('op', '=') == '=':
+                pairs.append((strip_casts(x['l']), x['r']))
+            if x.get('k') == 'init':
+                for fname, fv in x.get('fields', []):
+                    if fname == 'line':
+                        pairs.append(({'k': 'member', 'name': 'line', 'cty': None, 'rec_init': x.get('rec')}, fv))
+            for l, r in pairs:
+                if l is None or l.get('k') != 'member' or l.get('name') != 'line':
+                    continue
+                lt = (l.get('cty') or '').replace('const ', '')
+                r0 = r
+                while r0 is not None and r0.get('k') == 'cast':
+                    r0 = r0['e']
+                rt = (strip_copies(r0).get('cty') or '').replace('const ', '') if r0 is not None else ''
+                if lt in WIDTH and rt in WIDTH and WIDTH[lt] < WIDTH[rt]:
+                    E.violation('%s: %s' % (f['q'], show(x)[:50]), 'the line number is stored in a field of type %s but comes from a value of type %s: lines above %d wrap around, '
+                                'and the tables name lines that do not exist in the file' % (lt, rt, 2 ** (8 * WIDTH[lt] - 1) - 1), W(m, f, x),
+                                witness={'input': 'a source file with more than %d lines' % (2 ** (8 * WIDTH[lt] - 1) - 1)})
     for f in m.all_fns():
         for e in walk_all_exprs(f['body']):
             if e.get('k') == 'assign':
@@ -1672,6 +1794,27 @@ def c07(rep, tier):
                 'the PROGRAM header keeps a breakpoint site: stepping would stop on definitions', W(m, dvd, dpc[0].e))
     else:
         D.unknown('dispatchVoid', 'dispatchProgram call not unique')
+    # ... and nowhere else: every other site stands for a line the stepper has to visit
+    poppers_q = set()
+    for f in m.all_fns():
+        for e in walk_all_exprs(f['body']):
+            if is_call(e, '::pop_back') and e.get('obj') is not None and field_chain(e['obj'])[1][-1:] == ['code']:
+                poppers_q.add(f['q'])
+    for f in m.all_fns():
+        gg = None
+        for e in walk_all_exprs(f['body']):
+            if e.get('k') == 'call' and m.callee(e) in poppers_q:
+                gg = gg or m.cfg(f)
+                allowed = False
+                if f['q'] == 'dispatchVoid':
+                    allowed = any(isinstance(label, tuple) and label[0] == 'case' and 'PROGRAM' in label[1] for cond, label, cn in gg.guards_of(gg.ev(e)))
+                elif f['q'] == 'dispatchProgram':
+                    ev0 = gg.ev(e)
+                    allowed = all(gg.dominates(ev0, x) for x in m.emission_events(f) if x is not ev0)
+                D.check(allowed, '%s: %s' % (f['q'], show(e)[:40]), 'site removal for a PROGRAM header only',
+                        'a breakpoint site is removed outside the handling of a PROGRAM header: a line that emits no code of its own (the END of a loop followed by the END '
+                        'of its program, a label on its own line) loses its stop, and a jump to such a label stops on the next line', W(m, f, e),
+                        witness={'input': 'PROGRAM f IN a DO\n LOOP a DO\n  x0 := x0 + 1\n END\nEND'})
     G7 = rep.rule('C07.g', 'advanceLine creates a site exactly when generation moves to another line or another file (except the hidden file), '
                            'after updating the current location to it', floor=3)
     advance_line_semantics(G7, m, rep)
@@ -1940,11 +2083,13 @@ def c20_gen(rep, tier):
             # tabled exception: exactly one call site whose argument was converted by the checked sibling before
             users = [(g2, c2) for g2 in facts.functions for c2 in walk_all_exprs(g2['body'])
                      if c2.get('k') == 'call' and c2.get('callee') == f['q'] and g2['file'] == f['file']]
-            if (call.get('callee') or '') not in CONV:
-                # the conversion sits behind a returning wrapper: this call is the (one) use to justify
-                users = [(f, call)]
-                silent_fns.add((call['callee'], f['file']))
             exc = silent_exception(facts, mm, f, users)
+            if not exc[0] and (call.get('callee') or '') not in CONV:
+                # the conversion sits behind a returning wrapper: this call is then itself the (one) use to justify
+                exc2 = silent_exception(facts, mm, f, [(f, call)])
+                if exc2[0]:
+                    exc = exc2
+                    silent_fns.add((call['callee'], f['file']))
             if exc[0]:
                 A2.ok(inst, 'silent conversion, accepted: ' + exc[1], '%s:%d' % (os.path.relpath(f['file'], facts.repo), call['loc'][0]))
             else:
